@@ -150,7 +150,7 @@ fn run_case(line: &str, fails: &mut Vec<(String, String)>, effective: &mut Optio
         ["AC", ..] => ac::run(&toks, fails),
         [k, ..] if matches!(*k, "KY" | "KYE" | "KYX") => kytea::run(&toks, fails),
         [k, ..] if matches!(*k, "RD" | "WJ" | "WP") => dict::run(&toks, fails),
-        [k, ..] if matches!(*k, "CP" | "CE") => clicase::run(&toks, fails),
+        [k, ..] if matches!(*k, "CP" | "CE" | "CPX") => clicase::run(&toks, fails),
         _ => "bad-case".into(),
     }
 }
